@@ -293,4 +293,39 @@ def valueErrors : List Exc :=
 /-- `timedelta(weeks=, days=, hours=, minutes=, seconds=)` where a timedelta is the hand model's `Int` of seconds -/
 def tdsOfUnits (w d h m s : Int) : Int := (w * 7 + d) * 86400 + h * 3600 + m * 60 + s
 
+/-! ## wave 5: Python lists of objects (a stack), general `try`, a result that is a list or one element -/
+
+/-- `xs[-1]` : IndexError on an empty list -/
+def listLast {α : Type} (xs : List α) : Py α :=
+  match xs.getLast? with
+  | some x => .ok x
+  | none => .error .indexError
+
+/-- `xs[0]` -/
+def listHead {α : Type} (xs : List α) : Py α :=
+  match xs with
+  | x :: _ => .ok x
+  | [] => .error .indexError
+
+/-- `xs.pop()` : the last element and the list without it; IndexError on an empty list -/
+def listPop {α : Type} (xs : List α) : Py (α × List α) :=
+  match xs.getLast? with
+  | some x => .ok (x, xs.dropLast)
+  | none => .error .indexError
+
+/-- a method that mutates `xs[-1]` in place (`xs[-1].m(..)`, or `c.m(..)` where `c` is `xs[-1]`): the list with its
+    last element replaced by what the method leaves; IndexError on an empty list -/
+def modLast {α : Type} (xs : List α) (f : α → α) : Py (List α) :=
+  match xs.getLast? with
+  | some x => .ok (xs.dropLast ++ [f x])
+  | none => .error .indexError
+
+/-- a function that returns a list on one path and one element on another -/
+inductive PyResult (α : Type) where
+  | many (l : List α)
+  | one (x : α)
+
+/-- `try: x except <classes>: ..` : is the exception one of those the handler names -/
+def caught (catches : List Exc) (e : Exc) : Bool := catches.contains e
+
 end ICal.PyRT
